@@ -11,8 +11,9 @@ ToSet(q) == {q[i] : i \in DOMAIN q}
 
 VARIABLES tid, l, cur, prev,
           mroots,   \* structural root goals: GraphsOps.GoalRoots of the registered CDGs + registry
-          mpar      \* goal id -> structural parents: GraphsOps.GoalEdges of the registered CDGs
-vars == <<tid, l, cur, prev, mroots, mpar>>
+          mpar,     \* goal id -> structural parents: GraphsOps.GoalEdges of the registered CDGs
+          rpar, rkid  \* goal id -> parents / children in the exported real goal graph (tables built once)
+vars == <<tid, l, cur, prev, mroots, mpar, rpar, rkid>>
 
 (* The goals a goal "structurally depends on" are defined by the control-dependence graphs and the *)
 (* predicate registry the instrumentation registered (trace header `cos`, `goals`), not by the    *)
@@ -37,6 +38,7 @@ StructGoalGraph(t) ==
 
 NoEv == [cover |-> <<>>, cur |-> <<>>, cov |-> <<>>, objs |-> <<>>]
 Init == /\ tid \in 1..Len(Traces) /\ l = 0 /\ cur = NoEv /\ prev = NoEv /\ mroots = {} /\ mpar = <<>>
+        /\ rpar = <<>> /\ rkid = <<>>
 Next == /\ l < Len(Traces[tid].ev)
         /\ l' = l + 1
         /\ cur' = Traces[tid].ev[l + 1]
@@ -45,13 +47,15 @@ Next == /\ l < Len(Traces[tid].ev)
            THEN LET sg == StructGoalGraph(Traces[tid])
                 IN /\ mroots' = sg.roots
                    /\ mpar' = TLCEval([g \in 1..Traces[tid].n |-> {e[1] : e \in {x \in sg.edges : x[2] = g}}])
-           ELSE UNCHANGED <<mroots, mpar>>
+                   /\ LET E == ToSet(Traces[tid].edges) IN
+                        /\ rpar' = TLCEval([g \in 1..Traces[tid].n |-> {e[1] : e \in {x \in E : x[2] = g}}])
+                        /\ rkid' = TLCEval([g \in 1..Traces[tid].n |-> {e[2] : e \in {x \in E : x[1] = g}}])
+           ELSE UNCHANGED <<mroots, mpar, rpar, rkid>>
         /\ UNCHANGED tid
 Spec == Init /\ [][Next]_vars
 
 Goals   == 1..Traces[tid].n
 Roots   == ToSet(Traces[tid].roots)
-Edges   == ToSet(Traces[tid].edges)
 Current == ToSet(cur.cur)
 Covered == ToSet(cur.cov)
 Objs    == ToSet(cur.objs)
@@ -60,12 +64,9 @@ InitialGoals == l = 1 => (Current = Roots /\ Covered = {})
 \* C07: each goal is a root or becomes current once all goals it structurally depends on are covered
 \*   \A g \in Goals : g \in Roots \/ (ParentsOf(Edges, g) # {} /\
 \*                                      (ParentsOf(Edges, g) \subseteq Covered => g \in Current \cup Covered))
-\* written with one pass over the edges: HasParent = goals with a parent, Blocked = goals with an
-\* uncovered parent
-HasParent == {e[2] : e \in Edges}
-Blocked   == {e[2] : e \in {x \in Edges : x[1] \notin Covered}}
+\* with ParentsOf(Edges, g) = rpar[g] (table built from the exported edges when the trace starts)
 GoalReachable ==
-  l > 0 => \A g \in Goals \ Roots : g \in HasParent /\ (g \notin Blocked => g \in Current \cup Covered)
+  l > 0 => \A g \in Goals \ Roots : rpar[g] # {} /\ (rpar[g] \subseteq Covered => g \in Current \cup Covered)
 \* the same with the structural roots / parents derived by TLC from the registered CDGs: a structural
 \* root goal is an initial goal; any other goal has structural parents, all of them are goals, and it
 \* is current or covered once they are covered
@@ -84,16 +85,15 @@ Tracked      == l > 0 => Current \cup Covered \subseteq Objs
 Complete == (l > 0 /\ Current = {}) => Covered = Goals
 
 (* model agreement (DRIFT only): the observed post-state is UpdateLoop of the observed pre-state *)
-Children(E, g) == {e[2] : e \in {x \in E : x[1] = g}}
-RECURSIVE UpdateLoop(_, _, _, _, _)
-UpdateLoop(E, c, cov, ob, S) ==
+RECURSIVE UpdateLoop(_, _, _, _)
+UpdateLoop(c, cov, ob, S) ==
   LET cov2 == cov \cup (S \cap ob)
-      kids == UNION {Children(E, g) : g \in c \cap cov2}
+      kids == UNION {rkid[g] : g \in c \cap cov2}
       newk == {k \in kids : k \notin c /\ k \notin cov2}
       c2 == (c \ cov2) \cup newk
       ob2  == ob \cup c2
-  IN IF newk = {} THEN <<c2, cov2, ob2>> ELSE UpdateLoop(E, c2, cov2, ob2, S)
+  IN IF newk = {} THEN <<c2, cov2, ob2>> ELSE UpdateLoop(c2, cov2, ob2, S)
 AsModel == l > 1 =>
   <<Current, Covered, Objs>> =
-     UpdateLoop(Edges, ToSet(prev.cur), ToSet(prev.cov), ToSet(prev.objs), ToSet(cur.cover))
+     UpdateLoop(ToSet(prev.cur), ToSet(prev.cov), ToSet(prev.objs), ToSet(cur.cover))
 =============================================================================
